@@ -6,3 +6,5 @@ open GrVerif.Props.C03
 #print axioms every_opcode_keeps_stream
 #print axioms shape_stream_wf
 #print axioms passes_keep_stream
+#print axioms reversal_keeps_stream
+#print axioms reversal_touches_links_only
